@@ -1138,6 +1138,7 @@ class Guards:
         self._guard = {}
         self.truncated = set()
         self.atom_origin = {}
+        self.atom_edge = {}
         self._loops = None
         self._in_progress = set()
         self._back = self.cfg.back_edges()
@@ -1190,6 +1191,7 @@ class Guards:
             for c in r:
                 for a in c:
                     self.atom_origin.setdefault(a, set()).add(p)
+                    self.atom_edge.setdefault(a, set()).add((p, s))
         self._edge[k] = r
         return r
 
@@ -1410,6 +1412,37 @@ class Guards:
                         if D in body and b in body and p not in body:
                             return False
         return True
+
+    # ---- assertion-derived atoms: established by a branch whose other side cannot return (assert!/panic!/unreachable)
+    def _diverges(self, blk):
+        r = self.cfg.reachable(blk)
+        return not (set(self.cfg.returns) & r)
+
+    def assertion_atom(self, a):
+        edges = self.atom_edge.get(a)
+        if not edges:
+            return False
+        for (p, s_) in edges:
+            others = [s2 for s2 in self.cfg.succ[p] if s2 != s_]
+            # the atom restates an assertion iff every way of NOT taking this edge ends in a panic
+            if not others or not all(self._diverges(s2) for s2 in others):
+                return False
+        return True
+
+    def essential_guard(self, b, drop_iteration=True):
+        """the path condition of b without atoms that only restate an assertion and (optionally) without `iterator yielded Some/None` atoms"""
+        g = self.guard(b)
+        out = []
+        for c in g:
+            cc = []
+            for a in c:
+                if self.assertion_atom(a):
+                    continue
+                if drop_iteration and a[0] == 'is' and a[2] in ('Some', 'None') and ('iter' in a[1] or '[*]' in a[1] or 'next(' in a[1]):
+                    continue
+                cc.append(a)
+            out.append(cc)
+        return dnf_simplify(out)
 
     def stable_guard(self, b):
         g = self.guard(b)
